@@ -33,7 +33,7 @@ ASSUMPTIONS = [
 MINIMA = {
     "quick": {"reads_compared": 5000, "extl2_cases": 30, "v2_cases": 20, "compressed_clusters": 200, "backing_cases": 30,
               "external_data_cases": 10, "far_cases": 5, "unaligned_compressed_offsets": 50, "l2_table_structured_cases": 8},
-    "thorough": {"reads_compared": 50000},
+    "thorough": {"reads_compared": 500000},
 }
 MECH = "qcow2.read"
 
@@ -41,7 +41,7 @@ MECH = "qcow2.read"
 def plan(tier: str, seed: int) -> list[dict]:
     rng = rng_for(seed, ID, "plan")
     cases = []
-    n = 230 if tier == "quick" else 5000
+    n = 230 if tier == "quick" else 20000
     bits_std = [9, 9, 10, 12, 14, 16] if tier == "quick" else list(range(9, 21))
     bits_ext = [14, 15, 16] if tier == "quick" else list(range(14, 21))
     for i in range(n):
